@@ -79,9 +79,9 @@ def run_case(case):
                 vtrace.STORE.fail_reads = 0
                 vtrace.STORE.fail_skip = 0
                 vtrace.STORE.fail_path = None
-            if err is not None and not isinstance(err, OSError):
-                out.append(harness.disc("exception", "open_alos2 while a read of the volume directory fails", "OSError (or the right tree)", harness.exc_text(err)))
-            elif err is None:
+            if err is not None:
+                out.extend(common.judge_fault_error(err, "open_alos2 while a read of the volume directory fails"))
+            else:
                 flat = {f"/@{k}": v for k, v in tree.attrs.items()}
                 for d in model.check_root_attrs(info["volume_leaves"], flat, harness.disc):
                     d.setdefault("context", {})["during"] = "an open in which a read of the volume directory file failed with OSError" if consumed else "an open (no read of the volume directory was seen)"
